@@ -40,11 +40,13 @@ def run(ck):
                        "Display/Debug text of values and visitor implementations are outside the claim"]
     ck.rule("C10.R1", "field/message expressions: exactly once, only behind the full enabled guard", floor=500)
     ck.rule("C10.R2", "recorded values: declared names in order, message first, i-th field <-> i-th value, sigils", floor=300)
+    ck.rule("C10.R2c", "every valueset! field-form arm is exercised by a fixture function", floor=20)
     ck.rule("C10.R4", "impl Value for T calls exactly the visitor method for its type", floor=30)
     ck.rule("C10.R5", "ValueSet::record visits a pair iff same callsite and Some; Span::record ignores undeclared", floor=3)
     fx = "fx" if ck.tier == "quick" else "fx:%d:300" % ck.seed
     FX = Facts(fx)
     ck.configs.append(fx)
+    used = set()
     for fname, exp in sorted(FX.expect.items()):
         if exp["kind"] == "enabled":
             continue
@@ -53,6 +55,13 @@ def run(ck):
             continue
         r1(ck, FX, b, fname, exp)
         r2(ck, FX, b, fname, exp)
+        used |= fxlib.valueset_lines_used(FX, b)
+    for line in fxlib.valueset_arms():
+        if line in used:
+            ck.ok("C10.R2c", "macros.rs:%d" % line, nontrivial=False)
+        else:
+            ck.bad("C10.R2c", "valueset! arm uncovered", "tracing/src/macros.rs:%d" % line,
+                   "no fixture function expands the valueset! arm that builds its (key, value) pair at line %d: extend fixtures/gen_fixtures.py" % line)
     F = Facts("default")
     ck.configs.append("default")
     r4(ck, F)
